@@ -726,4 +726,26 @@ theorem inplace_message_breaks :
       [[some ⟨"c0", "A"⟩, none], [none, some ⟨"c1", "x"⟩], [none, some ⟨"c1", "y"⟩]]).1.map (·.toOption)
       = [some [some ⟨"c0", "A"⟩, some ⟨"c1", "xy"⟩], some [some ⟨"c0", "A"⟩, some ⟨"c1", "xyy"⟩]] := by decide
 
+/-! ## call ids need not be distinct: calls are answered by position -/
+
+/-- **answers_by_position_any_ids.** `tools_by_index` read position by position, with NO
+    assumption on the ids of the message (two calls may share an id, ids may be empty): for
+    every completion order Invoke returns exactly `calls.length` messages, and the i-th one
+    carries the i-th call's id — whatever it is — and the i-th call's answer. -/
+theorem answers_by_position_any_ids (calls : List Call) (hne : calls ≠ []) (v : Call → String)
+    (hall : ∀ c ∈ calls, answerI tools handler c = some (.ok (v c)))
+    (seen : Nat → Nat) (σ : List Nat) (hσ : σ.Perm (List.range calls.length)) :
+    ∃ msgs, invoke genFacts tools handler true calls seen σ = .ok msgs ∧
+      msgs.length = calls.length ∧
+      ∀ i (h : i < calls.length), msgs[i]? = some ⟨calls[i].id, v calls[i]⟩ := by
+  refine ⟨_, tools_by_index tools handler calls hne v hall seen σ hσ, by simp, fun i h => by simp [h]⟩
+
+/-- non-vacuity: four calls, ids `["x", "y", "x", ""]` and all equal: four answers, by position -/
+example : invoke exFacts exTools none true
+      [⟨"x", "a", "p"⟩, ⟨"y", "s", "q"⟩, ⟨"x", "a", "r"⟩, ⟨"", "s", "t"⟩] id [3, 1, 2, 0]
+    = .ok [⟨"x", "Ap"⟩, ⟨"y", "<q>"⟩, ⟨"x", "Ar"⟩, ⟨"", "<t>"⟩] := by decide
+example : invoke exFacts exTools none true
+      [⟨"same", "a", "p"⟩, ⟨"same", "s", "q"⟩, ⟨"same", "a", "p"⟩] id [2, 0, 1]
+    = .ok [⟨"same", "Ap"⟩, ⟨"same", "<q>"⟩, ⟨"same", "Ap"⟩] := by decide
+
 end EinoV.C17
